@@ -494,6 +494,21 @@ func (w *World) finishHTTP(hc *HTTPCall) {
 	w.rec(Ev{Kind: "httpresp", C: hc.Label, N: hc.rr.Code, Subj: strings.Join(hs, ";"), Text: hc.rr.Body.String()})
 }
 
+// OpenHTTP returns the labels of the HTTP requests still in progress.
+func (w *World) OpenHTTP() []string {
+	var r []string
+	for _, hc := range w.https {
+		select {
+		case <-hc.done:
+		default:
+			if !hc.Done {
+				r = append(r, hc.Label)
+			}
+		}
+	}
+	return r
+}
+
 // PollHTTP records the responses of HTTP calls that completed.
 func (w *World) PollHTTP() {
 	for _, hc := range w.https {
